@@ -23,7 +23,9 @@ EXPLANATION = (
     "store only boxed values, must match one of the order-preserving idioms "
     "(sorted insertion, monotone append, guarded replace, re-sort, deletion, "
     "fresh local, constructor) and, in the rejecting mutators, no write may "
-    "precede a rejection.  Decides the structural clauses only; leaf-depth "
+    "precede a rejection; a caller that passes a carried relative-bisect "
+    "position must take it back by one wherever it deletes an element.  "
+    "Decides the structural clauses only; leaf-depth "
     "uniformity and partition ordering inside splitters are not decided.")
 RULE = ("one obligation per (mutation site x applicable rule R1-R5) plus the "
         "helper obligations (_coord2pos is bisect_left, _coordExists, "
